@@ -29,7 +29,7 @@ from typing import Any, Callable
 
 from mc.common import same_diagnostics
 
-REPO = "/repo"
+REPO = os.environ.get("VERIF_REPO", "/repo")  # VERIF_REPO: harness self-test against a scratch worktree
 TYPESHED_STDLIB = os.path.join(REPO, "mypy", "typeshed", "stdlib")
 BASE_ARGS = ["--no-site-packages", "--show-traceback"]
 RUN_TIMEOUT = 60.0  # the property's bound: a run that needs longer is a hang
@@ -289,7 +289,7 @@ def run_batch(workdir: str, main_text: str, flags: list[str], master_cache: str,
                 pass
             site = "?"
             for ln in stack.splitlines():
-                m = re.match(r'\s*File "(/repo/[^"]+)", line \d+ in (\S+)', ln)
+                m = re.match(r'\s*File "(' + re.escape(REPO) + r'/[^"]+)", line \d+ in (\S+)', ln)
                 if m and "/typeshed/" not in m.group(1):
                     site = f"{m.group(1)[len(REPO) + 1:]}"
                     break
